@@ -1,7 +1,7 @@
 SPECIFICATION Spec
 CONSTANTS
   NPaths = 3
-  Contents = {"ClsDoc", "ClsField", "GInt", "ReqB", "UseFoo", "ClsSub"}
+  Contents = {"ClsDoc", "ClsField", "ReqB", "UseFoo", "ClsSub"}
   Ops = {"unset", "remove"}
   MaxSteps = 3
   EditDist = 3
